@@ -224,11 +224,15 @@ fn key_difference(a: &str, b: &str) -> String {
         }
     }
     ks.sort();
+    let composite = ks.contains(&"object") || ks.contains(&"list");
     if a == b {
         // identical printed keys: they differ only in embedded source locations
         format!("same-text:{}", ks.join("+"))
+    } else if composite {
+        // object / list literals: their embedded source locations take part in the comparison
+        format!("composite-args:{}", ks.join("+"))
     } else {
-        format!("args:{}", ks.join("+"))
+        format!("plain-args:{}", ks.join("+"))
     }
 }
 
